@@ -700,6 +700,10 @@ class Shard:
                     continue
                 for sp, nsv in spellings(t):
                     self.run_case(u, o, t, sp, nsv)
+                # the id of an existing namespace with a blank behind it is another id: whatever the answer is, the namespace the
+                # user may not touch must stay as it is (judged by state only, never by the answer)
+                if o["fam"] == "ns" and o["id"].split("/")[-1] in ("update", "remove"):
+                    self.run_case(u, o, t, "padded", None)
 
     # ---- cross-namespace references: a request addressed to an ALLOWED namespace `a` that reaches into namespace `b`
     PAIR_OPS = ("v2/mcp-server/add-foreign-tool", "v2/mcp-server/update-foreign-id", "v2/mcp-server/import-foreign-key",
@@ -779,6 +783,10 @@ class Shard:
                 raise common.Inconclusive("could not re-create the empty service svc3 in %s" % t)
         while True:
             s = o["build"](c)
+            if sp == "padded":
+                for part in ("f", "j", "q"):
+                    if isinstance(s.get(part), dict) and isinstance(s[part].get("namespaceId"), str):
+                        s[part] = dict(s[part], namespaceId=s[part]["namespaceId"] + " ")
             r = self.send(u["token"], s)
             reqs.append(s)
             resps.append(r)
@@ -872,7 +880,7 @@ def judge(out, shards):
     before = {}
     for c in cases:
         if "unattributed" not in c and c.get("phase") != "after-restart":
-            bad = bool(c["leaks"]) or (not c["allowed"] and not c["refused"] and not c["list_all"])
+            bad = bool(c["leaks"]) or (not c["allowed"] and not c["refused"] and not c["list_all"] and c["spelling"] != "padded")
             k = (c["user"], c["op"], c["ns"], c["spelling"])
             before[k] = before.get(k, False) or bad
     stats["after_restart_cases"] = 0
@@ -890,7 +898,7 @@ def judge(out, shards):
             stats["after_restart_cases"] += 1
             if c["allowed"] and c["worked"]:
                 stats["after_restart_sessions_still_valid"] += 1
-            bad = bool(c["leaks"]) or (not c["allowed"] and not c["refused"] and not c["list_all"])
+            bad = bool(c["leaks"]) or (not c["allowed"] and not c["refused"] and not c["list_all"] and c["spelling"] != "padded")
             if bad and not before.get((c["user"], c["op"], c["ns"], c["spelling"]), False):
                 w = witness(c)
                 w["phase"] = "same token after a restart of the node; the same request was refused / clean before the restart"
@@ -914,7 +922,7 @@ def judge(out, shards):
             stats["disallowed_cases"] += 1
             if c["refused"]:
                 stats["disallowed_refused"] += 1
-            elif not viol and not c["list_all"]:
+            elif not viol and not c["list_all"] and c["spelling"] != "padded":
                 stats["not_refused_cases"] += 1
                 out.violation("%s/not-refused" % sig_base, witness(c))
                 viol = True
